@@ -1,4 +1,4 @@
-From QV Require Import model.Base model.Lang model.Types model.Tir model.Ceval model.Builder model.Sem proofs.SemProofs proofs.ScopeProofs proofs.FrameProofs props.C01.
+From QV Require Import model.Base model.Lang model.Types model.Tir model.Floats model.Ceval model.Builder model.Sem proofs.SemProofs proofs.ScopeProofs proofs.FrameProofs props.C01.
 Open Scope Z_scope.
 Check (C01_partial_int_arith_exact : forall op x y v, in_int x = true -> in_int y = true ->
   match op with BAdd | BSub | BMul | BDiv | BRem | BShl => True | _ => False end ->
@@ -41,3 +41,11 @@ Check (eq_refl : arith BDiv (VI (-7)) (VL 2) = Def (VI (-3))).
 Check (eq_refl : arith BShr (VI (-8)) (VL 1) = Def (VI (-4))).
 Check (eq_refl : arith BSub (VU 0) (VL 1) = Def (VU 4294967295)).
 Check (eq_refl : arith BAdd (VI 2147483647) (VL 1) = Undef).
+From Coq Require Import Floats.SpecFloat.
+Check (C01_partial_double_arith_total : forall op x y, match op with BAdd | BSub | BMul | BDiv => True | _ => False end -> exists z, arith op (VD x) (VD y) = Def (VD z)).
+Check (C01_partial_nan_is_unordered : forall x y, sf_of_bits x = S754_nan ->
+  compare BEq (VD x) (VD y) = Def (VB false) /\ compare BNe (VD x) (VD y) = Def (VB true) /\
+  compare BLt (VD x) (VD y) = Def (VB false) /\ compare BLe (VD x) (VD y) = Def (VB false) /\
+  compare BGt (VD x) (VD y) = Def (VB false) /\ compare BGe (VD x) (VD y) = Def (VB false) /\
+  compare BNe (VD x) (VD x) = Def (VB true)).
+Check (C01_partial_double_examples).
